@@ -615,6 +615,90 @@ func cmp0(op string, p *Poly) *Term {
 	return TS.mk(op, SBool, 0, t, RealInt(0))
 }
 
+// findIteCond: the condition of some ite atom of p (smallest id), or nil
+func findIteCond(p *Poly) *Term {
+	var best *Term
+	for _, m := range p.monos {
+		for _, a := range m.atoms {
+			if a.op == "ite" {
+				if best == nil || a.args[0].id < best.id {
+					best = a.args[0]
+				}
+			}
+		}
+	}
+	return best
+}
+
+// substCond replaces every ite atom whose condition is c by its then/else branch
+func substCond(p *Poly, c *Term, val bool) *Poly {
+	r := newPoly()
+	for _, m := range p.monos {
+		cur := newPoly()
+		cur.addMono(nil, m.coeff)
+		for _, a := range m.atoms {
+			var f *Poly
+			if a.op == "ite" && a.args[0] == c {
+				if val {
+					f = polyOf(a.args[1])
+				} else {
+					f = polyOf(a.args[2])
+				}
+			} else {
+				f = polyOf(a)
+			}
+			cur = polyMul(cur, f)
+		}
+		for _, mm := range cur.monos {
+			r.addMono(mm.atoms, mm.coeff)
+		}
+	}
+	return r
+}
+
+// cmpPoly builds (p op 0) for op in "<", "<=", "=", lifting ite atoms out of the polynomial so that
+// the comparison atoms range over ite-free polynomials (maximal sharing between implementation and oracle).
+var cmpCache = map[string]*Term{}
+
+func cmpPoly(op string, p *Poly) *Term {
+	key := fmt.Sprintf("%s%d", op, fromPoly(p).id)
+	if t, ok := cmpCache[key]; ok {
+		return t
+	}
+	t := cmpPolyUncached(op, p)
+	cmpCache[key] = t
+	return t
+}
+
+func cmpPolyUncached(op string, p *Poly) *Term {
+	if c, ok := p.constVal(); ok {
+		switch op {
+		case "<":
+			return Bool(c.Sign() < 0)
+		case "<=":
+			return Bool(c.Sign() <= 0)
+		default:
+			return Bool(c.Sign() == 0)
+		}
+	}
+	if c := findIteCond(p); c != nil {
+		return Ite(c, cmpPoly(op, substCond(p, c, true)), cmpPoly(op, substCond(p, c, false)))
+	}
+	l := p.lead()
+	q := polyScale(p, new(big.Rat).Inv(l))
+	if op == "=" {
+		return cmp0("=", q)
+	}
+	if l.Sign() > 0 {
+		return cmp0(op, q)
+	}
+	// p op 0 with negative leading coefficient: q = p/l has the opposite sign
+	if op == "<" {
+		return Not(cmp0("<=", q)) // p < 0 <=> q > 0
+	}
+	return Not(cmp0("<", q)) // p <= 0 <=> q >= 0
+}
+
 func Lt(a, b *Term) *Term {
 	if a.sort == SInt {
 		if a.isConst() && b.isConst() {
@@ -622,16 +706,7 @@ func Lt(a, b *Term) *Term {
 		}
 		return TS.mk("<", SBool, 0, a, b)
 	}
-	p := polyAdd(polyOf(a), polyOf(b), -1)
-	if c, ok := p.constVal(); ok {
-		return Bool(c.Sign() < 0)
-	}
-	l := p.lead()
-	if l.Sign() > 0 {
-		return cmp0("<", polyScale(p, new(big.Rat).Inv(l)))
-	}
-	// p < 0  <=>  -p > 0  <=>  not (-p <= 0)
-	return Not(cmp0("<=", polyScale(p, new(big.Rat).Inv(l))))
+	return cmpPoly("<", polyAdd(polyOf(a), polyOf(b), -1))
 }
 
 func Le(a, b *Term) *Term {
@@ -641,23 +716,11 @@ func Le(a, b *Term) *Term {
 		}
 		return TS.mk("<=", SBool, 0, a, b)
 	}
-	p := polyAdd(polyOf(a), polyOf(b), -1)
-	if c, ok := p.constVal(); ok {
-		return Bool(c.Sign() <= 0)
-	}
-	l := p.lead()
-	if l.Sign() > 0 {
-		return cmp0("<=", polyScale(p, new(big.Rat).Inv(l)))
-	}
-	return Not(cmp0("<", polyScale(p, new(big.Rat).Inv(l))))
+	return cmpPoly("<=", polyAdd(polyOf(a), polyOf(b), -1))
 }
 
 func eqReal(a, b *Term) *Term {
-	p := polyAdd(polyOf(a), polyOf(b), -1)
-	if c, ok := p.constVal(); ok {
-		return Bool(c.Sign() == 0)
-	}
-	return cmp0("=", polyScale(p, new(big.Rat).Inv(p.lead())))
+	return cmpPoly("=", polyAdd(polyOf(a), polyOf(b), -1))
 }
 
 // ---- bit-vectors
